@@ -101,7 +101,7 @@ volatile int rt_stop_now = 0;   /* set by a participant (T2: the main fiber when
 static void (*rt_body)(int);
 
 /* pending plain write whose value is read back at the next point */
-static struct { volatile void* addr; int size; long slot; } pendw[RT_MAX_THREADS];
+static struct { volatile void* addr; int size; long slot; uint64_t old; long loc; int tso; } pendw[RT_MAX_THREADS];
 
 static long futex(int* uaddr, int op, int val, const struct timespec* to) {
   return syscall(SYS_futex, uaddr, op, val, to, NULL, 0);
@@ -132,6 +132,56 @@ static void gate_open(int* g) {
   futex(g, FUTEX_WAKE_PRIVATE, 1, NULL);
 }
 
+
+/* ---------- x86-TSO search mode (RT_TSO=1; monitors only, never in the lock-step runs) ----------
+ * Atomic stores weaker than seq_cst to registered locations go to a per-thread FIFO store buffer instead of memory
+ * (on x86 they are plain MOVs).  A load by the same thread is served from its buffer (store forwarding).  seq_cst
+ * stores, read-modify-writes, seq_cst fences, blocking and thread exit drain the buffer.  The controller flushes the
+ * oldest buffered store of thread t when the schedule says 100+t, and one store per thread per round while draining.
+ * The trace event of a buffered store is emitted when it reaches memory, so the trace stays sequentially consistent
+ * (a delayed store simply appears late).  Plain (non-atomic) stores are performed by the compiled code and cannot be
+ * buffered: the buffer is drained before any plain access to a registered location, which keeps every run a genuine
+ * TSO execution (flushing early is always allowed); store->load reordering is explored for atomic stores only. */
+static int tso_on;
+typedef struct { volatile void* a; int bits; uint64_t v; long loc; int mo; } sb_ent_t;
+#define SB_CAP 32
+static sb_ent_t sb[RT_MAX_THREADS][SB_CAP]; static int sbn[RT_MAX_THREADS];
+static void sb_apply(int t, sb_ent_t* e) {
+  switch (e->bits) {
+    case 8: __atomic_store_n((volatile a8*)e->a, (a8)e->v, __ATOMIC_SEQ_CST); break;
+    case 16: __atomic_store_n((volatile a16*)e->a, (a16)e->v, __ATOMIC_SEQ_CST); break;
+    case 32: __atomic_store_n((volatile a32*)e->a, (a32)e->v, __ATOMIC_SEQ_CST); break;
+    default: __atomic_store_n((volatile a64*)e->a, (a64)e->v, __ATOMIC_SEQ_CST); break;
+  }
+  long val = e->bits == 64 ? rt_canon(e->v) : e->bits == 32 ? (long)(int32_t)e->v : e->bits == 16 ? (long)(int16_t)e->v : (long)(int8_t)e->v;
+  push_ev(t, e->loc, e->mo == 9 ? K_WRITE * 10 + 9 : K_ASTORE * 10 + e->mo, val);
+}
+static int sb_flush_one(int t) {
+  if (!sbn[t]) return 0;
+  sb_apply(t, &sb[t][0]);
+  memmove(&sb[t][0], &sb[t][1], sizeof(sb_ent_t) * (size_t)(sbn[t] - 1));
+  sbn[t]--;
+  return 1;
+}
+static void sb_drain(int t) { if (t >= 0) while (sb_flush_one(t)) {} }
+static void sb_put(int t, volatile void* a, int bits, uint64_t v, long loc, int mo) {
+  if (sbn[t] == SB_CAP) sb_flush_one(t);
+  sb[t][sbn[t]++] = (sb_ent_t){a, bits, v, loc, mo};
+}
+static int sb_overlaps(int t, const volatile void* a, int bytes) {
+  uintptr_t p = (uintptr_t)a;
+  for (int i = 0; i < sbn[t]; i++) {
+    uintptr_t q = (uintptr_t)sb[t][i].a; int n = sb[t][i].bits / 8;
+    if (p < q + (uintptr_t)n && q < p + (uintptr_t)bytes) return 1;
+  }
+  return 0;
+}
+static int sb_lookup(int t, const volatile void* a, int bits, uint64_t* out) {
+  for (int i = sbn[t] - 1; i >= 0; i--)
+    if (sb[t][i].a == a && sb[t][i].bits == bits) { *out = sb[t][i].v; return 1; }
+  return 0;
+}
+
 static inline uint64_t rd(volatile void* a, int size) {
   switch (size) {
     case 1: return *(volatile a8*)a;
@@ -140,7 +190,24 @@ static inline uint64_t rd(volatile void* a, int size) {
     default: return *(volatile a64*)a;
   }
 }
+static inline void wr(volatile void* a, int size, uint64_t v) {
+  switch (size) {
+    case 1: *(volatile a8*)a = (a8)v; break;
+    case 2: *(volatile a16*)a = (a16)v; break;
+    case 4: *(volatile a32*)a = (a32)v; break;
+    default: *(volatile a64*)a = (a64)v; break;
+  }
+}
 static void flush_pending(int t) {
+  if (pendw[t].addr && pendw[t].tso) {
+    /* x86-TSO search mode: the plain store has just been executed by the compiled code; take it back (nobody else has
+     * run since: this thread still holds the baton) and put it into the thread's store buffer instead */
+    uint64_t v = rd(pendw[t].addr, pendw[t].size);
+    wr(pendw[t].addr, pendw[t].size, pendw[t].old);
+    sb_put(t, pendw[t].addr, pendw[t].size * 8, v, pendw[t].loc, 9);
+    pendw[t].addr = NULL; pendw[t].tso = 0;
+    return;
+  }
   if (pendw[t].addr) {
     uint64_t v = rd(pendw[t].addr, pendw[t].size);
     if (pendw[t].size == 4) v = (uint64_t)(int64_t)(int32_t)v;
@@ -173,6 +240,7 @@ void rt_block_self(void) {
   int t = rt_tid;
   if (t < 0) return;
   if (wake_pending[t] > 0) { wake_pending[t]--; return; }
+  if (tso_on) { flush_pending(t); sb_drain(t); }
   yield_to_controller(t, S_BLOCKED);
   /* granted again only after rt_wake moved us to S_WOKEN */
   push_ev(t, 0, K_EV * 10 + 9, 1);
@@ -189,6 +257,7 @@ static void* thread_main(void* arg) {
   tstate[t] = S_RUNNING;
   rt_body(t);
   flush_pending(t);
+  sb_drain(t);
   tstate[t] = S_DONE;
   rt_tid = -1;
   gate_open(&cgate);
@@ -207,6 +276,8 @@ static void grant(int t) {
 }
 
 int rt_run(int nthreads, void (*body)(int), const int* sched, int nsched, int drain_max) {
+  tso_on = getenv("RT_TSO") != NULL;
+  memset(sbn, 0, sizeof sbn);
   pthread_t th[RT_MAX_THREADS];
   rt_nthreads = nthreads; rt_body = body;
   pthread_attr_t attr; pthread_attr_init(&attr); pthread_attr_setstacksize(&attr, 1 << 20);
@@ -219,6 +290,7 @@ int rt_run(int nthreads, void (*body)(int), const int* sched, int nsched, int dr
   for (int i = 0; i < nsched; i++) {
     int t = sched[i];
     if (rt_stop_now) break;
+    if (tso_on && t >= 100 && t - 100 < nthreads) { sb_flush_one(t - 100); continue; }
     if (t < 0 || t >= nthreads) continue;
     if (tstate[t] == S_ATPOINT || tstate[t] == S_WOKEN) grant(t);
   }
@@ -227,6 +299,7 @@ int rt_run(int nthreads, void (*body)(int), const int* sched, int nsched, int dr
     live = 0;
     for (int t = 0; t < nthreads && steps < drain_max; t++) {
       if (rt_stop_now) { live = 0; break; }
+      if (tso_on && sb_flush_one(t)) live = 1;
       if (tstate[t] == S_ATPOINT || tstate[t] == S_WOKEN) { grant(t); steps++; live = 1; }
     }
   }
@@ -251,6 +324,7 @@ void __tsan_func_exit(void) {}
 void __tsan_vptr_update(void** a, void* b) { (void)a; (void)b; }
 void __tsan_vptr_read(void** a) { (void)a; }
 
+static __thread int size16;
 static inline void plain(volatile void* a, int size, int is_write) {
   int t = rt_tid;
   if (t < 0) return;
@@ -258,9 +332,15 @@ static inline void plain(volatile void* a, int size, int is_write) {
   if (loc < 0) return;
   yield_to_controller(t, S_ATPOINT);
   rt_stat_steps++;
+  if (tso_on && is_write && size16 == 0) {
+    if (sb_overlaps(t, a, size)) sb_drain(t);      /* keep one entry per address range: simple and still TSO */
+    pendw[t].addr = a; pendw[t].size = size; pendw[t].old = rd(a, size); pendw[t].loc = loc; pendw[t].tso = 1;
+    return;
+  }
+  if (tso_on && (is_write || sb_overlaps(t, a, size))) sb_drain(t);
   if (is_write) {
     long slot = push_ev(t, loc, K_WRITE * 10 + 9, 0);
-    pendw[t].addr = a; pendw[t].size = size; pendw[t].slot = slot;
+    pendw[t].addr = a; pendw[t].size = size; pendw[t].slot = slot; pendw[t].tso = 0;
   } else {
     uint64_t v = rd(a, size);
     if (size == 4) v = (uint64_t)(int64_t)(int32_t)v;
@@ -276,9 +356,9 @@ static inline void plain(volatile void* a, int size, int is_write) {
   void __tsan_volatile_write##n(void* a) { plain(a, n, 1); }
 RW(1) RW(2) RW(4) RW(8)
 void __tsan_read16(void* a) { plain(a, 8, 0); }
-void __tsan_write16(void* a) { plain(a, 8, 1); }
+void __tsan_write16(void* a) { size16 = 1; plain(a, 8, 1); size16 = 0; }
 void __tsan_unaligned_read16(void* a) { plain(a, 8, 0); }
-void __tsan_unaligned_write16(void* a) { plain(a, 8, 1); }
+void __tsan_unaligned_write16(void* a) { size16 = 1; plain(a, 8, 1); size16 = 0; }
 
 void __tsan_read_range(void* a, unsigned long s) {
   int t = rt_tid; if (t < 0) return; long loc = find_loc(a); if (loc < 0) return;
@@ -309,34 +389,39 @@ static inline long apoint(const volatile void* a) {
 }
 #define AT(T, n) \
   T __tsan_atomic##n##_load(const volatile T* a, int mo) { \
-    long loc = apoint(a); T v = __atomic_load_n(a, __ATOMIC_SEQ_CST); \
+    long loc = apoint(a); T v; uint64_t fw; \
+    if (tso_on && loc >= 0 && sb_lookup(rt_tid, a, n, &fw)) v = (T)fw; \
+    else { if (tso_on && loc >= 0 && sb_overlaps(rt_tid, a, n / 8)) sb_drain(rt_tid); v = __atomic_load_n(a, __ATOMIC_SEQ_CST); } \
     if (loc >= 0) push_ev(rt_tid, loc, K_ALOAD * 10 + mo, sx(v, n)); return v; } \
   void __tsan_atomic##n##_store(volatile T* a, T v, int mo) { \
-    long loc = apoint(a); __atomic_store_n(a, v, __ATOMIC_SEQ_CST); \
+    long loc = apoint(a); \
+    if (tso_on && loc >= 0 && mo != 5) { sb_put(rt_tid, a, n, (uint64_t)v, loc, mo); return; } \
+    if (tso_on) sb_drain(rt_tid); \
+    __atomic_store_n(a, v, __ATOMIC_SEQ_CST); \
     if (loc >= 0) push_ev(rt_tid, loc, K_ASTORE * 10 + mo, sx(v, n)); } \
   T __tsan_atomic##n##_exchange(volatile T* a, T v, int mo) { \
-    long loc = apoint(a); T o = __atomic_exchange_n(a, v, __ATOMIC_SEQ_CST); \
+    long loc = apoint(a); if (tso_on) sb_drain(rt_tid); T o = __atomic_exchange_n(a, v, __ATOMIC_SEQ_CST); \
     if (loc >= 0) push_ev(rt_tid, loc, K_XCHG * 10 + mo, sx(o, n)); return o; } \
   T __tsan_atomic##n##_fetch_add(volatile T* a, T v, int mo) { \
-    long loc = apoint(a); T o = __atomic_fetch_add(a, v, __ATOMIC_SEQ_CST); \
+    long loc = apoint(a); if (tso_on) sb_drain(rt_tid); T o = __atomic_fetch_add(a, v, __ATOMIC_SEQ_CST); \
     if (loc >= 0) push_ev(rt_tid, loc, K_FADD * 10 + mo, sx(o, n)); return o; } \
   T __tsan_atomic##n##_fetch_sub(volatile T* a, T v, int mo) { \
-    long loc = apoint(a); T o = __atomic_fetch_sub(a, v, __ATOMIC_SEQ_CST); \
+    long loc = apoint(a); if (tso_on) sb_drain(rt_tid); T o = __atomic_fetch_sub(a, v, __ATOMIC_SEQ_CST); \
     if (loc >= 0) push_ev(rt_tid, loc, K_FSUB * 10 + mo, sx(o, n)); return o; } \
   T __tsan_atomic##n##_fetch_and(volatile T* a, T v, int mo) { \
-    long loc = apoint(a); T o = __atomic_fetch_and(a, v, __ATOMIC_SEQ_CST); \
+    long loc = apoint(a); if (tso_on) sb_drain(rt_tid); T o = __atomic_fetch_and(a, v, __ATOMIC_SEQ_CST); \
     if (loc >= 0) push_ev(rt_tid, loc, 15 * 10 + mo, sx(o, n)); return o; } \
   T __tsan_atomic##n##_fetch_or(volatile T* a, T v, int mo) { \
-    long loc = apoint(a); T o = __atomic_fetch_or(a, v, __ATOMIC_SEQ_CST); \
+    long loc = apoint(a); if (tso_on) sb_drain(rt_tid); T o = __atomic_fetch_or(a, v, __ATOMIC_SEQ_CST); \
     if (loc >= 0) push_ev(rt_tid, loc, 16 * 10 + mo, sx(o, n)); return o; } \
   T __tsan_atomic##n##_fetch_xor(volatile T* a, T v, int mo) { \
-    long loc = apoint(a); T o = __atomic_fetch_xor(a, v, __ATOMIC_SEQ_CST); \
+    long loc = apoint(a); if (tso_on) sb_drain(rt_tid); T o = __atomic_fetch_xor(a, v, __ATOMIC_SEQ_CST); \
     if (loc >= 0) push_ev(rt_tid, loc, 17 * 10 + mo, sx(o, n)); return o; } \
   T __tsan_atomic##n##_fetch_nand(volatile T* a, T v, int mo) { \
-    long loc = apoint(a); T o = __atomic_fetch_nand(a, v, __ATOMIC_SEQ_CST); \
+    long loc = apoint(a); if (tso_on) sb_drain(rt_tid); T o = __atomic_fetch_nand(a, v, __ATOMIC_SEQ_CST); \
     if (loc >= 0) push_ev(rt_tid, loc, 18 * 10 + mo, sx(o, n)); return o; } \
   int __tsan_atomic##n##_compare_exchange_strong(volatile T* a, T* c, T v, int mo, int f) { \
-    (void)f; long loc = apoint(a); \
+    (void)f; long loc = apoint(a); if (tso_on) sb_drain(rt_tid); \
     int ok = __atomic_compare_exchange_n(a, c, v, 0, __ATOMIC_SEQ_CST, __ATOMIC_SEQ_CST); \
     if (loc >= 0) { if (!ok) rt_stat_cas_fail++; \
       push_ev(rt_tid, loc, (ok ? K_CAS_OK : K_CAS_FAIL) * 10 + mo, ok ? sx(v, n) : sx(*c, n)); } \
@@ -347,7 +432,7 @@ static inline long apoint(const volatile void* a) {
     __tsan_atomic##n##_compare_exchange_strong(a, &c, v, mo, f); return c; }
 AT(a8, 8) AT(a16, 16) AT(a32, 32) AT(a64, 64)
 
-void __tsan_atomic_thread_fence(int mo) { (void)mo; __atomic_thread_fence(__ATOMIC_SEQ_CST); }
+void __tsan_atomic_thread_fence(int mo) { if (tso_on && mo == 5) sb_drain(rt_tid); __atomic_thread_fence(__ATOMIC_SEQ_CST); }
 void __tsan_atomic_signal_fence(int mo) { (void)mo; }
 void* __tsan_create_fiber(unsigned f) { (void)f; return (void*)1; }
 void __tsan_destroy_fiber(void* f) { (void)f; }
@@ -356,7 +441,7 @@ void* __tsan_get_current_fiber(void) { return (void*)1; }
 
 /* ---------- guarded hooks in /repo (include/machine_specific.h) ---------- */
 static __thread long dcas_loc = -1;
-void verif_dcas_before(volatile void* location) { dcas_loc = apoint(location); }
+void verif_dcas_before(volatile void* location) { dcas_loc = apoint(location); if (tso_on) sb_drain(rt_tid); }
 void verif_dcas_after(volatile void* location, int result) {
   if (dcas_loc < 0 || rt_tid < 0) return;
   volatile a64* p = (volatile a64*)location;
@@ -374,3 +459,6 @@ __attribute__((weak)) void verif_event(int kind, const volatile void* a, const v
 }
 __attribute__((weak)) int verif_quarantine(void* block) { (void)block; return 0; }
 __attribute__((weak)) void verif_relax(void) {}
+/* store_load_barrier() of include/machine_specific.h is inline assembly (lock addq): in the x86-TSO search mode it
+ * drains the calling thread's store buffer; otherwise nothing (no event, no scheduling point) */
+void verif_fence(void) { if (tso_on && rt_tid >= 0) { flush_pending(rt_tid); sb_drain(rt_tid); } }
